@@ -731,6 +731,13 @@ impl HttpContext {
                             .data_opt(buf)
                             .and_then(|data| from_utf8(data).ok())
                             .map(ToOwned::to_owned);
+                    } else if compare_no_case(key, self.sozu_id_header.as_bytes()) {
+                        // The correlation header is owned by the proxy: it is
+                        // pushed below with this request's ULID. A value
+                        // supplied by the client must not reach the backend
+                        // next to it (the backend could not tell which of the
+                        // two is the proxy's).
+                        header.elide();
                     } else {
                         #[cfg(feature = "opentelemetry")]
                         if compare_no_case(key, b"traceparent") {
